@@ -79,6 +79,21 @@ Fixpoint var_indices (p : prog) : list nat :=
   end.
 Definition nvars (p : prog) : nat := length (nodup Nat.eq_dec (var_indices p)).
 
+(** Python's == on programs (synth/syntax/program.py): [Variable.__eq__] is
+    [isinstance(other, Variable) and self.variable == other.variable]. *)
+Definition sym_eqb_py (a b : sym) : bool :=
+  match a, b with
+  | SVar i _, SVar j _ => Nat.eqb i j
+  | _, _ => sym_eqb a b
+  end.
+
+Fixpoint prog_eqb_py (a b : prog) : bool :=
+  match a, b with
+  | PLeaf s, PLeaf s' => sym_eqb_py s s'
+  | PFun f l, PFun g l' => sym_eqb_py f g && list_eqb prog_eqb_py l l'
+  | _, _ => false
+  end.
+
 Section TaskGen.
   Variable vapp : value -> value -> outcome value.
   Variable prim_value : N -> value.
@@ -132,7 +147,9 @@ Section TaskGen.
     | Raised e => if memb N.eqb e (s_gskip cfg) then Returned VNone else Raised e
     end.
 
-  Definition seen_mem (p : prog) (st : gstate) : bool := memb prog_eqb p (g_seen st).
+  (** [solution in self.seen] is Python's == on programs: Variable.__eq__ compares the
+      index only (the type is ignored), everything else is structural. *)
+  Definition seen_mem (p : prog) (st : gstate) : bool := memb prog_eqb_py p (g_seen st).
 
   (** ---- generate_program ---- *)
   (** [while solution in self.seen and unique_tries < self.max_tries]:
